@@ -363,8 +363,12 @@ class PauliStringPhasorGate(raw_types.Gate):
     def _decompose_(self, qubits: Sequence[cirq.Qid]) -> Iterator[cirq.OP_TREE]:
         if len(self.dense_pauli_string) <= 0:
             return
-        any_qubit = qubits[0]
         to_z_ops = op_tree.freeze_op_tree(self._to_z_basis_ops(qubits))
+        # Qubits on which the Pauli string is the identity take no part in the rotation.
+        qubits = [q for q, p in zip(qubits, self.dense_pauli_string.pauli_mask) if p]
+        if not qubits:
+            return
+        any_qubit = qubits[0]
         xor_decomp = tuple(xor_nonlocal_decompose(qubits, any_qubit))
         yield to_z_ops
         yield xor_decomp
